@@ -102,6 +102,11 @@ Theorem C10_eps_annotation_get_overlap_complete : forall s t l s' t' l',
 Proof. exact (ann_get_overlap_eps_complete eps Heps a W). Qed.
 End C10_eps_ann.
 
+(* get_overlap(labels): the request is read as a set of labels (order and repetitions are immaterial) *)
+Theorem C10_annotation_get_overlap_label_request_is_a_set : forall eps a l1 l2, l1 <> [] -> l2 <> [] ->
+  (forall x, In x l1 <-> In x l2) -> get_overlap_ann eps a (Some l1) = get_overlap_ann eps a (Some l2).
+Proof. exact get_overlap_request_is_a_set. Qed.
+
 Example C10_eps_nonvacuous :
   wf 4 [(0,40); (10,20); (10,63); (80,90); (90,110)] /\
   segmentation 4 [(0,40); (10,20); (10,63); (80,90); (90,110)] = [(0,10); (10,20); (20,40); (40,63); (80,90); (90,110)] /\
@@ -122,6 +127,7 @@ Print Assumptions C10_original_is_union_of_pieces.
 Print Assumptions C10_segmentation_sorted.
 Print Assumptions C10_get_overlap.
 Print Assumptions C10_annotation_get_overlap.
+Print Assumptions C10_annotation_get_overlap_label_request_is_a_set.
 Print Assumptions C10_eps_segmentation_pieces.
 Print Assumptions C10_eps_segmentation_disjoint.
 Print Assumptions C10_eps_original_is_union_of_pieces.
